@@ -5,7 +5,14 @@
  *     (mantissa, decimal exponent) handed to make_float denotes exactly the literal; the single-precision path is taken
  *     only when the value fits a float; exponent overflow gives +-inf / +-0 - never a finite value of the wrong magnitude. */
 #include "vh.h"
+#ifdef UNIT_H
+#include UNIT_H
+#else
 #include "numcut.h"
+#endif
+#ifndef NANINF
+#define NANINF 0
+#endif
 typedef unsigned __int128 u128;
 static unsigned g_mf_calls, g_mf_kind; static double g_mf_m; static int32_t g_mf_e; static uint64_t g_mf_ret;
 /* contract stubs of make_float(m, e) = m x 10^e rounded to the type: the result is an arbitrary FINITE value, except that
@@ -75,6 +82,16 @@ void h_pnum_scan(void) {
   /* reference scanner: grammar  sign? (digit* ('.' digit*)?) with at least a digit or dot first, ([eE] sign? digit*)? end */
   unsigned i = 0; int neg = 0, valid = 1, isint = 1; uint64_t M = 0; int fr = 0; int ex = 0, exneg = 0; unsigned exdigits = 0;
   if (s[i] == '-') { neg = 1; i++; } else if (s[i] == '+') i++;
+  if (NANINF && (s[i] == 'n' || s[i] == 'N' || s[i] == 'i' || s[i] == 'I')) {
+    /* NaN+Infinity build (C10: accepted only when the option is enabled): after the optional sign, n/N denotes NaN and i/I
+     * a signed infinity; both are floating kinds and make_float is never consulted */
+    uint64_t u0 = 0, i0 = 0; double d0 = 0; int k0 = (int)w_parse_kind(s, &u0, &i0, &d0); VOBS(k0); VOBS(vbits64(d0) != 0);
+    VASSERT(k0 == 1 || k0 == 4, "NaN / Infinity spelling is a floating kind");
+    VASSERT(g_mf_calls == 0, "no scaling for NaN / Infinity");
+    if (s[i] == 'n' || s[i] == 'N') { VASSERT(d0 != d0, "n.. denotes NaN"); VWITNESS("nan"); }
+    else { VASSERT(d0 == (neg ? -__builtin_inf() : __builtin_inf()), "i.. denotes infinity with the literal's sign"); VWITNESS("inf"); }
+    return;
+  }
   if (!isdig(s[i]) && s[i] != '.') valid = 0;
   for (unsigned k = 0; k < NB; k++) if (valid && isdig(s[i])) { M = M * 10 + (s[i] - '0'); i++; }
   if (valid && s[i] == '.') { isint = 0; i++; for (unsigned k = 0; k < NB; k++) if (isdig(s[i])) { M = M * 10 + (s[i] - '0'); fr++; i++; } }
